@@ -348,7 +348,10 @@ class ExcelInPython:
             return isinstance(value, (float, int))
 
         for row in table_array:
-            if isinstance(row[0], self.EmptyCell) or not isinstance(row[0], lookup_value_type):
+            if isinstance(row[0], self.EmptyCell):
+                # a blank key cell is no key (rows below the data of a generously sized table), as in MATCH
+                continue
+            if not isinstance(row[0], lookup_value_type):
                 if not is_number(row[0]) or not is_number(lookup_value):
                     continue
 
